@@ -139,7 +139,7 @@ def effectTable : List FnRow := [
   ⟨[], [114, 128, 131, 136]⟩,  -- 125 astral.sun.sunrise
   ⟨[], [114, 128, 131, 136]⟩,  -- 126 astral.sun.sunset
   ⟨[], [128, 136]⟩,  -- 127 astral.sun.time_at_elevation
-  ⟨[], [26, 31, 89, 96, 97, 105, 109, 112, 119]⟩,  -- 128 astral.sun.time_of_transit
+  ⟨[.writesGlobal], [26, 31, 89, 96, 97, 105, 109, 112, 119]⟩,  -- 128 astral.sun.time_of_transit  (_TRANSIT_CACHE.pop(...); store through _TRANSIT_CACHE)
   ⟨[], [100, 102, 125, 126, 136]⟩,  -- 129 astral.sun.twilight
   ⟨[], [115]⟩,  -- 130 astral.sun.var_y
   ⟨[], [88, 132]⟩,  -- 131 astral.sun.zenith
